@@ -86,6 +86,12 @@ pub fn check(c: &OntCase, stats: &mut Stats) -> CheckResult {
     if n.no_header {
         stats.label("obo-without-header");
     }
+    if n.hpoa_head % 4 >= 2 && (!model.direct[OMIM].is_empty() || !model.direct[ORPHA].is_empty()) {
+        stats.label("hpoa-without-column-line");
+        if n.hpoa_head % 4 == 3 {
+            stats.label("hpoa-starts-with-a-row");
+        }
+    }
     let colon = expected.terms.iter().any(|t| t.name.contains(": "));
     if colon {
         stats.label("name-with-colon-space");
@@ -140,7 +146,7 @@ fn strategy(tier: Tier) -> BoxedStrategy<OntCase> {
                     let r = &recs[pick(p, recs.len())];
                     // negated row for a disease that also has positive rows; sometimes for a term it is linked to
                     let t = if p % 2 == 0 && !r.terms.is_empty() { r.terms[pick(tp, r.terms.len())] } else { term };
-                    noise.not_rows.push((k, r.id, r.name.clone(), t));
+                    noise.not_rows.push((k, r.id, text_name(&r.name), t));
                 } else {
                     // a disease that only occurs negated: must not exist afterwards
                     let mut id = 900_000 + u32::from(p);
@@ -182,7 +188,7 @@ impl Property for C09 {
         }
     }
     fn required_labels(&self, _tier: Tier) -> Vec<&'static str> {
-        vec!["nontrivial", "NOT-rows", "disease-only-negated", "NOT-row-for-an-existing-link", "DECIPHER-rows", "typedef-stanzas", "extra-columns", "name-with-colon-space", "non-ascii-name", "transitive-loader", "compared-with-builder", "obo-without-header"]
+        vec!["nontrivial", "NOT-rows", "disease-only-negated", "NOT-row-for-an-existing-link", "DECIPHER-rows", "typedef-stanzas", "extra-columns", "name-with-colon-space", "non-ascii-name", "transitive-loader", "compared-with-builder", "obo-without-header", "hpoa-without-column-line", "hpoa-starts-with-a-row"]
     }
     fn run_generated(&self, tier: Tier, seed: u64, n: u64, stats: &mut Stats) -> Option<(Value, Failure)> {
         run_typed(strategy(tier), seed, n, stats, check)
